@@ -42,6 +42,27 @@ fn c06_oob_set_never_returns() {
     kani::cover!(true, "oob_call_returned");
 }
 
+/// The same statement for EVERY u32 width and height (no bound on the page size): the bounds check precedes every access
+/// to the byte image, so it can be decided on a page value whose byte image is empty (such a value cannot be built through
+/// the public API; the harness builds it directly to remove the size bound).
+#[kani::proof]
+#[kani::unwind(2)]
+fn c06_oob_never_returns_any_dims() {
+    let w: u32 = kani::any();
+    let h: u32 = kani::any();
+    let x: u32 = kani::any();
+    let y: u32 = kani::any();
+    kani::assume(x >= w || y >= h);
+    let empty: [u8; 0] = [];
+    let mut page = Page { width: w, height: h, bytes: Cow::Borrowed(&empty[..]) };
+    if kani::any() {
+        let _ = page.get_pixel(x, y);
+    } else {
+        page.set_pixel(x, y, kani::any());
+    }
+    kani::cover!(true, "oob_call_returned");
+}
+
 // Vacuity guard for the two harnesses above: with in-bounds coordinates the same set-up does return.
 #[kani::proof]
 #[kani::unwind(2)]
